@@ -576,6 +576,14 @@ func runC16Delegate(c *Ctx) {
 		}
 		return
 	}
+	// a walker that asks the shared resolver itself (no wrapper of its own in between) delegates by construction
+	for _, w := range findWalkers(p) {
+		for _, call := range callsIn(w.Fn, fnName(shared)) {
+			c.Sites++
+			c.OK("C16-DELEGATE", fnName(w.Fn), "delegates", call.Pos(), "calls the shared resolver directly")
+			break
+		}
+	}
 	for _, fn := range p.Funcs {
 		if fn.Name() != "getValidFn" || fn == shared || fn.Pkg != shared.Pkg || fn.Signature.Recv() == nil {
 			continue
